@@ -126,6 +126,15 @@ func genMultiEventOp(t *rapid.T, w *World, pre *Snapshot) Op {
 	if len(claimable) > 0 {
 		kinds = append(kinds, "claim_id")
 	}
+	var held []string
+	for _, id := range tasks {
+		if it := pre.Items[id]; it.ClaimedBy != "" && (it.State == "doing" || it.State == "error" || it.State == "blocked") {
+			held = append(held, id)
+		}
+	}
+	if len(held) > 0 {
+		kinds = append(kinds, "claim_takeover", "claim_takeover")
+	}
 	if len(tasks) > 0 {
 		kinds = append(kinds, "set_multi", "set_multi", "set_multi", "set_result")
 	}
@@ -152,6 +161,15 @@ func genMultiEventOp(t *rapid.T, w *World, pre *Snapshot) Op {
 	case "claim_id":
 		r := g.ref(oneOf(t, claimable, "target"))
 		return Op{Kind: "claim_id", Target: &r, Agent: agent}
+	case "claim_takeover":
+		// `claim <id>` of a task another agent holds: old claim out, new claim in, state
+		id := oneOf(t, held, "target")
+		r := g.ref(id)
+		other := "taker-over"
+		if pre.Items[id].ClaimedBy == other {
+			other = "second-taker"
+		}
+		return Op{Kind: "claim_id", Target: &r, Agent: other}
 	case "set_multi":
 		id := oneOf(t, tasks, "target")
 		it := pre.Items[id]
@@ -184,9 +202,27 @@ func genMultiEventOp(t *rapid.T, w *World, pre *Snapshot) Op {
 		op := Op{Kind: "set", Mode: "json", Target: &r, Agent: agent}
 		op.Files = []FileSpec{{Path: "out/crash.txt", Content: "result content"}}
 		op.ResultPath, op.ResultSummary = sp("out/crash.txt"), sp("crash result")
-		op.Title = sp(w.UniqueTitle("withresult"))
+		if pct(t, 70, "title") {
+			op.Title = sp(w.UniqueTitle("withresult"))
+		}
 		if pct(t, 50, "body") {
 			op.Body = sp(bodyOf())
+		}
+		if pct(t, 60, "state") {
+			// evidence together with the state change it justifies
+			var allowed []string
+			for _, s := range AllStates {
+				if transitionTable[pre.Items[id].State][s] {
+					allowed = append(allowed, s)
+				}
+			}
+			if len(allowed) > 0 {
+				st := oneOf(t, allowed, "state")
+				op.State = &st
+				if needsClaim(st) {
+					op.Claim = sp(agent)
+				}
+			}
 		}
 		return op
 	case "sequence3":
